@@ -29,6 +29,9 @@ func extractConn(id string) extractor {
 		if id == "C04" {
 			serverChanCaps(repo, o)
 		}
+		if id == "C03" {
+			startupFacts(repo, o)
+		}
 		for _, f := range connSkeletonFiles {
 			if err := writeSkeleton(repo, f, skeletonDir()); err != nil {
 				o.problem("skeleton of %s: %v", f, err)
